@@ -89,6 +89,9 @@ class Runner:
         self.out_root = os.environ.get("VERIF_OUT", VERIF)   # self-test runs redirect evidence/found elsewhere
         self.found_dir = os.path.join(self.out_root, "found", pid)
         self.env = sanitizer_env()
+        # rapidcheck's deep, ever-changing call stacks make ASan's stack depot and quarantine grow by ~100 KB per case
+        # (16 GB per worker in a thorough run): bound both for the rapidcheck workers (fuzz.py keeps the defaults)
+        self.env["ASAN_OPTIONS"] += ":quarantine_size_mb=32:malloc_context_size=6"
         extra = self.cfg.get("env", {}).get("ASAN_OPTIONS_EXTRA")
         if extra:   # options for the rapidcheck binaries of this property (fuzz.py sets its own)
             self.env["ASAN_OPTIONS"] += ":" + extra
